@@ -118,15 +118,21 @@ func Bodies() {
 	ctx := plush.NewContext()
 	ctx.Set("xs", xs)
 	ctx.Set("t", t)
+	ctx.Set("same", func(v []int) []int { return v })
+	// the iterable written as a variable or as a call in the loop header
+	iter := "xs"
+	if vrt.Bool() {
+		iter = "same(xs)"
+	}
 	var in, want string
 	bi := vrt.Choice(len(bodies) + len(codeBodies))
 	if bi < len(bodies) {
 		b := bodies[bi]
-		in = "[<%= for (i, v) in xs { %>" + b.src + "<% } %>]"
+		in = "[<%= for (i, v) in " + iter + " { %>" + b.src + "<% } %>]"
 		want = "[" + unroll(b, xs, t) + "]"
 	} else {
 		b := codeBodies[bi-len(bodies)]
-		in = "[<%= for (i, v) in xs { " + b.src + " } %>]"
+		in = "[<%= for (i, v) in " + iter + " { " + b.src + " } %>]"
 		want = "[" + unroll(b, xs, t) + "]"
 	}
 	vrt.Note("input", in)
